@@ -174,9 +174,10 @@ LISTING = [
     (("s",), "site", {}),
     ((), "leaf", {"rt": "root"}),
     (("a", ""), "leaf", {"rt": "temp"}),
+    (("t", ""), "site", {}),
 ]
 FILTERS = [None, "rt=humidity", "rt=temperature-c", "rt=temp*", "rt=temperature-c humidity", "rt=hum", "if=sensor", "if=core.b", "if=core*", "ct=0", "ct=40",
-           "ct=4*", "href=/a", "href=/a*", "href=/s/*", "href=/", "rt=*", "rt=nothing", "noequals", "foo=bar", "rt=root", "href=/s/x"]
+           "ct=4*", "href=/a", "href=/a*", "href=/s/*", "href=/", "rt=*", "rt=nothing", "noequals", "foo=bar", "rt=root", "href=/s/x", "href=/t//x", "href=/t/*"]
 
 
 def mk_listing(reach):
@@ -191,8 +192,8 @@ def mk_listing(reach):
         def get_link_description(self):
             return None
 
-    MASKS = [0b1111111, 0b0000000, 0b0010011, 0b1101100, 0b0010000, 0b0101011]
-    REMOVED = [-1, 4, 0, 3]
+    MASKS = [0b11111111, 0b00000000, 0b00010011, 0b11101100, 0b10010000, 0b10101011]
+    REMOVED = [-1, 4, 0, 3, 7]
 
     def h(mi: int, fi: int, ri: int) -> None:
         assert 0 <= mi < len(MASKS) and 0 <= fi < len(FILTERS) and 0 <= ri < len(REMOVED)
@@ -206,6 +207,7 @@ def mk_listing(reach):
                 if not (mask >> i) & 1:
                     continue
                 if kind == "site":
+                    pre = "/" + "/".join(p)
                     s = resource.Site()
                     x = Leaf()
                     x.rt = "nested"
@@ -216,9 +218,9 @@ def mk_listing(reach):
                     s.add_resource(["d"], deep)
                     site.add_resource(list(p), s)
                     if removed != i:
-                        expected["/s/x"] = {"rt": "nested"}
-                        expected["/s/"] = {}
-                        expected["/s/d/z"] = {}
+                        expected[pre + "/x"] = {"rt": "nested"}
+                        expected[pre + "/"] = {}
+                        expected[pre + "/d/z"] = {}
                 else:
                     r = Hidden() if kind == "hidden" else Leaf()
                     for k, v in attrs.items():
